@@ -170,18 +170,26 @@ Section Walk.
   Lemma parent_below done c : Parent done c -> Below s0 t c.
   Proof. intros [y [p [H _]]]. exists y, p. exact H. Qed.
 
-  (* the flat name of the head of a path (leaf first, top instance last), following the code:
-     the top instance contributes nothing; an unnamed instance below the top level has no flat name
-     (flatten raises there), an unnamed child of the top definition stays unnamed *)
+  (* following the code, along a path (leaf first, top instance last):
+     [pname p] is the value handed down as add_to_name to the elements below the head of p - None below
+     the top instance (no enclosing instance), otherwise the flat name of the head with a missing name
+     counted as the empty string (_name_in_path);
+     [fname p] is the flat name of the head of p: its own name (or none) for a child of the top
+     definition, otherwise prefix + "/" + own name *)
   Fixpoint pname (p : list id) : option str :=
     match p with
-    | [] => Some []
+    | [] => None
     | c :: p' =>
         match p' with
-        | [] => Some []
-        | _ :: _ => match pname p' with Some a => joino a (get_str s0 c str_NAME) | None => None end
+        | [] => None
+        | _ :: _ => Some (oe (joino (pname p') (get_str s0 c str_NAME)))
         end
     end.
+  Definition fname (p : list id) : option str :=
+    match p with [] => None | c :: p' => joino (pname p') (get_str s0 c str_NAME) end.
+
+  Lemma pname_cons2 c y p : pname (c :: y :: p) = Some (oe (fname (c :: y :: p))).
+  Proof. reflexivity. Qed.
 
   Record W (x : xstate) (queue : list (id * option str)) (done rem : list id) : Prop := mkW {
     w_uf : UF (st x);
@@ -192,12 +200,10 @@ Section Walk.
     w_nodup : NoDup (map fst queue ++ done);
     w_rem : forall y, In y rem <-> In y done /\ hierb y = true;
     w_qn : forall c pn p, In (c, pn) queue -> is_rpath s0 t (c :: p) -> pn = pname p;
-    w_dn : forall c p, In c done -> is_rpath s0 t (c :: p) -> get_str (st x) c str_NAME = pname (c :: p);
-    w_named : forall c p, In c done -> is_rpath s0 t (c :: p) ->
-                exists a, pname p = Some a /\ (a <> [] -> get_str s0 c str_NAME <> None);
+    w_dn : forall c p, In c done -> is_rpath s0 t (c :: p) -> get_str (st x) c str_NAME = fname (c :: p);
     w_cn : forall y p d cb, In y done -> is_rpath s0 t (y :: p) -> iref s0 y = Some d -> is_leaf_def s0 d = false ->
              par s0 RCables cb = Some d ->
-             exists a, pname (y :: p) = Some a /\ get_str (st x) cb str_NAME = joino a (get_str s0 cb str_NAME)
+             get_str (st x) cb str_NAME = joino (pname (y :: p)) (get_str s0 cb str_NAME)
   }.
 
   (* children of a queued instance are neither processed nor queued *)
@@ -248,54 +254,48 @@ Section Walk.
   (* ---- one instance comes up ---- *)
   Lemma W_bring x rest done rem inst pn x1 :
     W x ((inst, pn) :: rest) done rem -> bring_to_top x inst pn topd = (x1, None) ->
-    exists a, pn = Some a /\ UF (st x1) /\ St (st x1) (fun y => Nat.eqb y inst || memb y done) (mcb done) /\
+    UF (st x1) /\ St (st x1) (fun y => Nat.eqb y inst || memb y done) (mcb done) /\
       Below s0 t inst /\ ~ In inst done /\ kind_of s0 inst = Some KInstance /\
-      (forall p, is_rpath s0 t (inst :: p) -> get_str (st x1) inst str_NAME = pname (inst :: p)) /\
-      (forall p, is_rpath s0 t (inst :: p) -> exists a', pname p = Some a' /\ (a' <> [] -> get_str s0 inst str_NAME <> None)) /\
+      (forall p, is_rpath s0 t (inst :: p) -> get_str (st x1) inst str_NAME = fname (inst :: p)) /\
       (forall y, y <> inst -> data (st x1) y = data (st x) y) /\
       uniq_ctr x1 = uniq_ctr x /\ keep (st x) (st x1).
   Proof.
-    intros Wx E. destruct (bring_to_top_eff _ _ _ _ _ E) as [a [p [-> B]]]. exists a. split; [reflexivity|].
+    intros Wx E. destruct (bring_to_top_eff _ _ _ _ _ E) as [p B].
     pose proof (w_uf _ _ _ _ Wx) as U. pose proof (w_st _ _ _ _ Wx) as S.
     assert (U1 : UF (st x1)).
-    { pose proof (xpU x inst (Some a) topd U) as H. rewrite E in H. apply H. unfold not_stuck. cbn. discriminate. }
+    { pose proof (xpU x inst pn topd U) as H. rewrite E in H. apply H. unfold not_stuck. cbn. discriminate. }
     assert (Hq : Parent done inst) by (apply (w_q _ _ _ _ Wx); left; reflexivity).
     pose proof (parent_below _ _ Hq) as Hb. pose proof (below_kind _ Hb) as Hk.
     assert (Hnd : ~ In inst done).
     { intro H. pose proof (w_nodup _ _ _ _ Wx) as N. cbn in N. apply NoDup_cons_iff in N as [N _]. apply N, in_or_app. right. exact H. }
     assert (Hrel : mrel (st x) inst = RChildren).
     { unfold mrel, is_cable, is_kind. rewrite (st_kind _ _ _ S), Hk. reflexivity. }
-    split; [exact U1|]. split; [apply (St_bring_inst x inst a p x1 _ _ S B Hrel)|].
+    split; [exact U1|]. split; [apply (St_bring_inst x inst pn p x1 _ _ S B Hrel)|].
     split; [exact Hb|]. split; [exact Hnd|]. split; [exact Hk|].
     assert (Hd0 : data (st x) inst = data s0 inst).
     { apply (st_data _ _ _ S); [apply memb_false; exact Hnd|apply mcb_inst_false; exact Hk]. }
-    split; [|split; [|split; [apply (br_data_other _ _ _ _ _ _ B)|split; [apply (br_uniq _ _ _ _ _ _ B)|apply (br_keep _ _ _ _ _ _ B)]]]].
-    - intros q Hq'. rewrite (br_name _ _ _ _ _ _ B).
-      unfold get_str at 1. rewrite Hd0. fold (get_str s0 inst str_NAME).
-      pose proof (w_qn _ _ _ _ Wx inst (Some a) q (or_introl eq_refl) Hq') as Hpn.
-      destruct q as [|y q]; [exfalso; destruct (rpath_inv _ _ _ _ Hq') as [[_ ->]|[? [? [E0 _]]]]; [apply (below_ne_t _ Hb); reflexivity|discriminate E0]|].
-      cbn [pname]. cbn [pname] in Hpn. rewrite <- Hpn. reflexivity.
-    - intros q Hq'. exists a. split; [symmetry; apply (w_qn _ _ _ _ Wx inst (Some a) q (or_introl eq_refl) Hq')|].
-      intro Ha. pose proof (br_named _ _ _ _ _ _ B Ha) as H. unfold get_str in H. rewrite Hd0 in H. exact H.
+    split; [|split; [apply (br_data_other _ _ _ _ _ _ B)|split; [apply (br_uniq _ _ _ _ _ _ B)|apply (br_keep _ _ _ _ _ _ B)]]].
+    intros q Hq'. rewrite (br_name _ _ _ _ _ _ B).
+    unfold get_str at 1. rewrite Hd0. fold (get_str s0 inst str_NAME).
+    rewrite (w_qn _ _ _ _ Wx inst pn q (or_introl eq_refl) Hq'). reflexivity.
   Qed.
 
   (* ---- rebuilding the invariant after one round ---- *)
   Lemma W_next x rest done rem inst pn x1 x3 d newq rem' :
     W x ((inst, pn) :: rest) done rem -> iref s0 inst = Some d ->
     Below s0 t inst -> ~ In inst done -> kind_of s0 inst = Some KInstance ->
-    (forall p, is_rpath s0 t (inst :: p) -> get_str (st x1) inst str_NAME = pname (inst :: p)) ->
-    (forall p, is_rpath s0 t (inst :: p) -> exists a', pname p = Some a' /\ (a' <> [] -> get_str s0 inst str_NAME <> None)) ->
+    (forall p, is_rpath s0 t (inst :: p) -> get_str (st x1) inst str_NAME = fname (inst :: p)) ->
     (forall y, y <> inst -> data (st x1) y = data (st x) y) ->
     UF (st x3) -> St (st x3) (fun y => memb y (inst :: done)) (mcb (inst :: done)) ->
     (forall y, cab_of inst y = false -> data (st x3) y = data (st x1) y) ->
     (forall cb p, cab_of inst cb = true -> is_rpath s0 t (inst :: p) ->
-       exists a', pname (inst :: p) = Some a' /\ get_str (st x3) cb str_NAME = joino a' (get_str s0 cb str_NAME)) ->
+       get_str (st x3) cb str_NAME = joino (pname (inst :: p)) (get_str s0 cb str_NAME)) ->
     (forall c, In c (map fst newq) <-> hierb inst = true /\ child s0 c inst) -> NoDup (map fst newq) ->
-    (forall c pn', In (c, pn') newq -> pn' = get_str (st x1) inst str_NAME) ->
+    (forall c pn', In (c, pn') newq -> pn' = Some (name_in_path (st x1) inst)) ->
     (forall y, In y rem' <-> In y rem \/ (y = inst /\ hierb inst = true)) ->
     W x3 (rest ++ newq) (inst :: done) rem'.
   Proof.
-    intros Wx Hr Hb Hnd Hk Hname Hnamed Hd1 U3 S3 Hd3 Hcab Hnq Hnqd Hnqn Hrem.
+    intros Wx Hr Hb Hnd Hk Hname Hd1 U3 S3 Hd3 Hcab Hnq Hnqd Hnqn Hrem.
     assert (Hq : Parent done inst) by (apply (w_q _ _ _ _ Wx); left; reflexivity).
     assert (Hcabi : forall c, kind_of s0 c = Some KInstance -> cab_of inst c = false).
     { intros c Hc. unfold cab_of. rewrite Hr. destruct (opt_id_eqb (par s0 RCables c) (Some d)) eqn:E; [|apply andb_false_r].
@@ -336,16 +336,16 @@ Section Walk.
       + apply (w_qn _ _ _ _ Wx c pn' p); [right; exact Hin|exact Hp].
       + rewrite (Hnqn _ _ Hin). assert (Hc : In c (map fst newq)) by (apply in_map_iff; exists (c, pn'); split; [reflexivity|exact Hin]).
         apply Hnq in Hc as [_ Hc]. destruct Hb as [y [q Hy]].
-        pose proof (rpath_unique s0 t I1 I2 Hu _ _ _ Hp (rp_child _ _ _ _ _ Hy Hc)) as ->. apply Hname. exact Hy.
+        pose proof (rpath_unique s0 t I1 I2 Hu _ _ _ Hp (rp_child _ _ _ _ _ Hy Hc)) as ->.
+        rewrite pname_cons2, <- (Hname _ Hy). reflexivity.
     - intros c p [<-|Hc] Hp.
       + unfold get_str. rewrite (Hd3 inst (Hcabi _ Hk)). apply (Hname p Hp).
       + assert (Hkc : kind_of s0 c = Some KInstance) by (apply below_kind, (parent_below done), (w_done _ _ _ _ Wx c Hc)).
         assert (Hne : c <> inst) by (intros ->; contradiction).
         unfold get_str. rewrite (Hd3 c (Hcabi _ Hkc)), (Hd1 c Hne). apply (w_dn _ _ _ _ Wx c p Hc Hp).
-    - intros c p [<-|Hc] Hp; [apply (Hnamed p Hp)|apply (w_named _ _ _ _ Wx c p Hc Hp)].
     - intros y p dy cb [<-|Hy] Hp Hry Hl Hpc.
       + apply (Hcab cb p); [|exact Hp]. unfold cab_of. rewrite Hry, Hl. cbn. apply opt_id_eqb_some. exact Hpc.
-      + destruct (w_cn _ _ _ _ Wx y p dy cb Hy Hp Hry Hl Hpc) as [a' [Ha1 Ha2]]. exists a'. split; [exact Ha1|].
+      + pose proof (w_cn _ _ _ _ Wx y p dy cb Hy Hp Hry Hl Hpc) as Ha2.
         assert (Hne : cb <> inst) by (intros ->; apply cable_kind in Hpc; congruence).
         assert (Hco : cab_of inst cb = false).
         { unfold cab_of. rewrite Hr. destruct (is_leaf_def s0 d) eqn:Hld; [reflexivity|]. cbn.
@@ -361,18 +361,18 @@ Section Walk.
     xfold (fun x c => bring_to_top x c iname topd) l x = (x2, None) ->
     UF (st x2) /\ St (st x2) di (fun y => memb y l || dc y) /\
     (forall y, ~ In y l -> data (st x2) y = data (st x) y) /\
-    (forall cb, In cb l -> exists a, iname = Some a /\ get_str (st x2) cb str_NAME = joino a (get_str (st x) cb str_NAME)) /\
+    (forall cb, In cb l -> get_str (st x2) cb str_NAME = joino iname (get_str (st x) cb str_NAME)) /\
     uniq_ctr x2 = uniq_ctr x.
   Proof.
     induction l as [|c l IH]; intros x x2 di dc U S N Hk E; cbn [xfold] in E.
     - injection E as <-. split; [exact U|]. split; [exact S|]. split; [reflexivity|]. split; [intros cb []|reflexivity].
     - destruct (bring_to_top x c iname topd) as [xa [er|]] eqn:Eb; [discriminate E|].
-      destruct (bring_to_top_eff _ _ _ _ _ Eb) as [a [p [-> B]]].
+      destruct (bring_to_top_eff _ _ _ _ _ Eb) as [p B].
       assert (Ua : UF (st xa)).
-      { pose proof (xpU x c (Some a) topd U) as H. rewrite Eb in H. apply H. unfold not_stuck. cbn. discriminate. }
+      { pose proof (xpU x c iname topd U) as H. rewrite Eb in H. apply H. unfold not_stuck. cbn. discriminate. }
       assert (Hrel : mrel (st x) c = RCables).
       { unfold mrel, is_cable, is_kind. rewrite (st_kind _ _ _ S), (Hk c (or_introl eq_refl)). reflexivity. }
-      pose proof (St_bring_cable x c a p xa _ _ S B Hrel) as Sa.
+      pose proof (St_bring_cable x c iname p xa _ _ S B Hrel) as Sa.
       apply NoDup_cons_iff in N as [Nc N].
       destruct (IH xa x2 _ _ Ua Sa N (fun cb H => Hk cb (or_intror H)) E) as [U2 [S2 [D2 [N2 C2]]]].
       split; [exact U2|]. split.
@@ -382,8 +382,8 @@ Section Walk.
       { intros y Hy. rewrite D2 by (intro H; apply Hy; right; exact H). apply (br_data_other _ _ _ _ _ _ B). intros ->. apply Hy. left. reflexivity. }
       split; [|rewrite C2; apply (br_uniq _ _ _ _ _ _ B)].
       intros cb [<-|Hcb].
-      + exists a. split; [reflexivity|]. unfold get_str at 1. rewrite (D2 c Nc). apply (br_name _ _ _ _ _ _ B).
-      + destruct (N2 cb Hcb) as [a' [Ea Hn]]. exists a'. split; [exact Ea|]. rewrite Hn.
+      + unfold get_str at 1. rewrite (D2 c Nc). apply (br_name _ _ _ _ _ _ B).
+      + rewrite (N2 cb Hcb).
         unfold get_str. rewrite (br_data_other _ _ _ _ _ _ B cb); [reflexivity|]. intros ->. contradiction.
   Qed.
 
@@ -397,14 +397,14 @@ Section Walk.
     W x1 rest (inst :: done) rem /\ hierb inst = false /\ keep (st x) (st x1) /\ uniq_ctr x1 = uniq_ctr x.
   Proof.
     intros Wx Eb Hr1 Hl1.
-    destruct (W_bring _ _ _ _ _ _ _ Wx Eb) as [a [-> [U1 [S1 [Hb [Hnd [Hk [Hname [Hnamed [Hd1 [Hc1 K1]]]]]]]]]]].
+    destruct (W_bring _ _ _ _ _ _ _ Wx Eb) as [U1 [S1 [Hb [Hnd [Hk [Hname [Hd1 [Hc1 K1]]]]]]]].
     assert (Hr : iref s0 inst = Some d) by (rewrite <- (st_iref _ _ _ S1); exact Hr1).
     destruct (def_contents _ _ _ _ _ _ _ _ Wx Hr U1 S1) as [A [B [Hleaf Hdt]]].
     assert (Hl0 : is_leaf_def s0 d = true) by congruence.
     assert (Hh : hierb inst = false) by (unfold hierb; rewrite Hr, Hl0; reflexivity).
     assert (Hco : forall y, cab_of inst y = false) by (intro y; unfold cab_of; rewrite Hr, Hl0; reflexivity).
     assert (Wn : W x1 (rest ++ []) (inst :: done) rem).
-    { apply (W_next x rest done rem inst (Some a) x1 x1 d [] rem Wx Hr Hb Hnd Hk Hname Hnamed Hd1 U1).
+    { apply (W_next x rest done rem inst pn x1 x1 d [] rem Wx Hr Hb Hnd Hk Hname Hd1 U1).
       - eapply St_ext; [| |exact S1]; [intro y; reflexivity|]. intro y. cbn [mcb existsb]. rewrite (Hco y). reflexivity.
       - reflexivity.
       - intros cb p H. rewrite Hco in H. discriminate H.
@@ -418,20 +418,20 @@ Section Walk.
   Lemma W_step_hier x rest done rem inst pn x1 d x2 x3 :
     W x ((inst, pn) :: rest) done rem -> bring_to_top x inst pn topd = (x1, None) ->
     iref (st x1) inst = Some d -> is_leaf_def (st x1) d = false ->
-    xfold (fun x c => bring_to_top x c (get_str (st x1) inst str_NAME) topd) (kids (st x1) RCables d) x1 = (x2, None) ->
+    xfold (fun x c => bring_to_top x c (Some (name_in_path (st x1) inst)) topd) (kids (st x1) RCables d) x1 = (x2, None) ->
     xfold (fun x p => xfold (fun x i => redo_pin x inst i) (kids (st x) RPins p) x) (kids (st x2) RPorts d) x2 = (x3, None) ->
-    W x3 (rest ++ map (fun c => (c, get_str (st x1) inst str_NAME)) (kids (st x1) RChildren d)) (inst :: done) (rem ++ [inst]) /\
+    W x3 (rest ++ map (fun c => (c, Some (name_in_path (st x1) inst))) (kids (st x1) RChildren d)) (inst :: done) (rem ++ [inst]) /\
     Below s0 t inst /\ ~ In inst done /\ iref s0 inst = Some d /\ is_leaf_def s0 d = false /\
     keep (st x) (st x1) /\ UF (st x2) /\ (exists di dc, St (st x2) di dc) /\ uniq_ctr x3 = uniq_ctr x.
   Proof.
     intros Wx Eb Hr1 Hl1 Ec Er.
-    destruct (W_bring _ _ _ _ _ _ _ Wx Eb) as [a [-> [U1 [S1 [Hb [Hnd [Hk [Hname [Hnamed [Hd1 [Hc1 K1]]]]]]]]]]].
+    destruct (W_bring _ _ _ _ _ _ _ Wx Eb) as [U1 [S1 [Hb [Hnd [Hk [Hname [Hd1 [Hc1 K1]]]]]]]].
     assert (Hr : iref s0 inst = Some d) by (rewrite <- (st_iref _ _ _ S1); exact Hr1).
     destruct (def_contents _ _ _ _ _ _ _ _ Wx Hr U1 S1) as [A [B [Hleaf Hdt]]].
     pose proof (inv_a _ (proj1 U1)) as J1.
     assert (Hl0 : is_leaf_def s0 d = false) by congruence.
     assert (Hh : hierb inst = true) by (unfold hierb; rewrite Hr, Hl0; reflexivity).
-    set (iname := get_str (st x1) inst str_NAME) in *.
+    set (iname := Some (name_in_path (st x1) inst)) in *.
     set (l := kids (st x1) RCables d) in *.
     assert (Hcoiff : forall y, memb y l = cab_of inst y).
     { intro y. apply bool_iff_eq. rewrite memb_In. rewrite B. unfold cab_of. rewrite Hr, Hl0. cbn. symmetry. apply opt_id_eqb_some. }
@@ -446,12 +446,15 @@ Section Walk.
     destruct K3 as [K3 [Hc3 _]].
     assert (UF3 : UF (st x3)) by (apply U3; unfold not_stuck; cbn; discriminate).
     split; [|split; [exact Hb|split; [exact Hnd|split; [exact Hr|split; [exact Hl0|split; [exact K1|split; [exact U2|split; [eexists _, _; exact S2|congruence]]]]]]]].
-    apply (W_next x rest done rem inst (Some a) x1 x3 d _ _ Wx Hr Hb Hnd Hk Hname Hnamed Hd1 UF3).
+    apply (W_next x rest done rem inst pn x1 x3 d _ _ Wx Hr Hb Hnd Hk Hname Hd1 UF3).
     - apply (St_wkeep _ _ _ _ K3). eapply St_ext; [| |exact S2]; [intro y; reflexivity|].
       intro y. cbn [mcb existsb]. rewrite (Hcoiff y). reflexivity.
     - intros y Hy. rewrite (wk_data _ _ K3). apply D2. intro H. apply memb_In in H. rewrite Hcoiff in H. congruence.
-    - intros cb p Hcb Hp. rewrite <- Hcoiff in Hcb. apply memb_In in Hcb. destruct (N2 cb Hcb) as [a' [Ea Hn]].
-      exists a'. split; [rewrite <- (Hname p Hp); exact Ea|].
+    - intros cb p Hcb Hp. rewrite <- Hcoiff in Hcb. apply memb_In in Hcb. pose proof (N2 cb Hcb) as Hn.
+      assert (Epn : iname = pname (inst :: p)).
+      { destruct p as [|y q]; [exfalso; destruct (rpath_inv _ _ _ _ Hp) as [[_ ->]|[? [? [E0 _]]]]; [apply (below_ne_t _ Hb); reflexivity|discriminate E0]|].
+        rewrite pname_cons2, <- (Hname _ Hp). reflexivity. }
+      rewrite <- Epn.
       unfold get_str at 1. rewrite (wk_data _ _ K3). fold (get_str (st x2) cb str_NAME). rewrite Hn.
       assert (Hpc : par s0 RCables cb = Some d) by (apply B; exact Hcb).
       assert (Hne : cb <> inst) by (intros ->; apply cable_kind in Hpc; congruence).
@@ -482,14 +485,14 @@ Section Walk.
       destruct (is_leaf_def (st x1) d) eqn:Hl1.
       + destruct (W_step_leaf _ _ _ _ _ _ _ _ Wx Eb Hr1 Hl1) as [Wn [_ [_ Hc]]].
         destruct (IH x1 rest (inst :: done) rem x' rem' Wn E) as [done' [Wd Hcu]]. exists done'. split; [exact Wd|congruence].
-      + destruct (xfold (fun x c => bring_to_top x c (get_str (st x1) inst str_NAME) topd) (kids (st x1) RCables d) x1) as [x2 [er|]] eqn:Ec; [discriminate E|].
+      + destruct (xfold (fun x c => bring_to_top x c (Some (name_in_path (st x1) inst)) topd) (kids (st x1) RCables d) x1) as [x2 [er|]] eqn:Ec; [discriminate E|].
         destruct (xfold (fun x p => xfold (fun x i => redo_pin x inst i) (kids (st x) RPins p) x) (kids (st x2) RPorts d) x2) as [x3 [er|]] eqn:Er; [discriminate E|].
         destruct (W_step_hier _ _ _ _ _ _ _ _ _ _ Wx Eb Hr1 Hl1 Ec Er) as [Wn [_ [_ [_ [_ [_ [_ [_ Hc]]]]]]]].
         destruct (IH x3 _ (inst :: done) (rem ++ [inst]) x' rem' Wn E) as [done' [Wd Hcu]]. exists done'. split; [exact Wd|congruence].
   Qed.
 
   (* the state before the loop *)
-  Lemma W_init x : st x = s0 -> W x (map (fun c => (c, Some [])) (kids s0 RChildren topd)) [] [].
+  Lemma W_init x : st x = s0 -> W x (map (fun c => (c, None)) (kids s0 RChildren topd)) [] [].
   Proof.
     intro Hx.
     assert (Hpath : forall c, In c (kids s0 RChildren topd) -> is_rpath s0 t [c; t]).
@@ -504,7 +507,6 @@ Section Walk.
     - intro y. split; [intros []|intros [[] _]].
     - intros c pn p Hin Hp. apply in_map_iff in Hin as [c0 [E Hc0]]. injection E as -> <-.
       pose proof (rpath_unique s0 t I1 I2 Hu _ _ _ Hp (Hpath c Hc0)) as ->. reflexivity.
-    - intros c p [].
     - intros c p [].
     - intros y p d cb [].
   Qed.
@@ -543,12 +545,10 @@ Record FlatSpec (s0 : state) (t topd : id) (done : list id) (s' : state) : Prop 
               if memb c done then (if hierb s0 c then None else Some topd) else par s0 RChildren c;
   fs_parc : forall cb, par s' RCables cb = if mcb s0 done cb then Some topd else par s0 RCables cb;
   fs_paro : forall r y, r <> RChildren -> r <> RCables -> par s' r y = par s0 r y /\ kids s' r y = kids s0 r y;
-  fs_namei : forall c y p, is_rpath s0 t (c :: y :: p) -> get_str s' c str_NAME = pname s0 (c :: y :: p);
-  fs_named : forall c y p, is_rpath s0 t (c :: y :: p) ->
-               exists a, pname s0 (y :: p) = Some a /\ (a <> [] -> get_str s0 c str_NAME <> None);
+  fs_namei : forall c y p, is_rpath s0 t (c :: y :: p) -> get_str s' c str_NAME = fname s0 (c :: y :: p);
   fs_namec : forall y z p d cb, is_rpath s0 t (y :: z :: p) -> iref s0 y = Some d -> is_leaf_def s0 d = false ->
                par s0 RCables cb = Some d ->
-               exists a, pname s0 (y :: z :: p) = Some a /\ get_str s' cb str_NAME = joino a (get_str s0 cb str_NAME);
+               get_str s' cb str_NAME = joino (pname s0 (y :: z :: p)) (get_str s0 cb str_NAME);
   fs_data : forall y, memb y done = false -> mcb s0 done y = false -> data s' y = data s0 y;
   fs_keys : forall y k, k <> str_NAME -> k <> str_IDENT -> k <> str_NS -> sassoc k (data s' y) = sassoc k (data s0 y)
 }.
@@ -574,7 +574,7 @@ Theorem flatten_spec fuel x n x' t topd :
 Proof.
   intros U0 Hu Htop Ht E. pose proof (uf_flatten fuel x n x' U0 E) as U'.
   unfold flatten in E. rewrite Htop, Ht in E.
-  destruct (flat_loop fuel x topd (map (fun c => (c, Some [])) (kids (st x) RChildren topd)) []) as [[x1 [er|]] rem] eqn:El; [discriminate E|].
+  destruct (flat_loop fuel x topd (map (fun c => (c, None)) (kids (st x) RChildren topd)) []) as [[x1 [er|]] rem] eqn:El; [discriminate E|].
   destruct (flat_loop_W (st x) t topd U0 Hu Ht fuel x _ [] [] x1 rem (W_init (st x) t topd U0 Hu Ht x eq_refl) El) as [done [Wd Hc1]].
   destruct (remove_fold_eff topd rem x1 x' E) as [K [D [Hc2 [_ [P O]]]]].
   pose proof (w_st _ _ _ _ _ _ _ Wd) as S.
@@ -601,7 +601,6 @@ Proof.
   - intro cb. rewrite (proj1 (O RCables cb ltac:(discriminate))). apply (st_parc _ _ _ _ _ S).
   - intros r y H1 H2. destruct (O r y H1) as [A B]. rewrite A, B. apply (st_paro _ _ _ _ _ S); assumption.
   - intros c y p Hp. unfold get_str. rewrite D. apply (w_dn _ _ _ _ _ _ _ Wd c (y :: p)); [|exact Hp]. apply Hdone. exists y, p. exact Hp.
-  - intros c y p Hp. apply (w_named _ _ _ _ _ _ _ Wd c (y :: p)); [|exact Hp]. apply Hdone. exists y, p. exact Hp.
   - intros y z p d cb Hp Hr Hl Hpc. unfold get_str at 1. rewrite D.
     apply (w_cn _ _ _ _ _ _ _ Wd y (z :: p) d cb); try assumption. apply Hdone. exists z, p. exact Hp.
   - intros y H1 H2. rewrite D. apply (st_data _ _ _ _ _ S); assumption.
